@@ -91,7 +91,12 @@ fn adv_execute(deps: DepsMut, env: Env, _info: MessageInfo, msg: AdvExec) -> Std
                         }
                     }
                     Act::Loan { amount, script } => {
-                        resp = resp.add_message(WasmMsg::Execute { contract_addr: cfg.vault.clone(), funds: vec![],
+                        // loans whose amount is 3 mod 7 carry coins of a denom the vault has nothing to do with (they must not
+                        // count as repayment of anything): the model is unaffected, foreign coins are not part of its state
+                        let junk = deps.querier.query_balance(env.contract.address.clone(), "ujunk").map(|c| c.amount).unwrap_or_default();
+                        // (a small amount, so that several loans dispatched from one handler can all be funded)
+                        let attach = if amount.u128() % 7 == 3 && junk.u128() >= 1_000_000_000 { Uint128::new((amount.u128() / 2).min(1_000_000)) } else { Uint128::zero() };
+                        resp = resp.add_message(WasmMsg::Execute { contract_addr: cfg.vault.clone(), funds: if attach.is_zero() { vec![] } else { vec![coin(attach.u128(), "ujunk")] },
                             msg: to_json_binary(&vmsg::ExecuteMsg::FlashLoan { amount,
                                 msg: to_json_binary(&AdvExec::Run { loan: amount, script })? })? });
                     }
@@ -339,6 +344,13 @@ pub fn deploy(cw20: bool, fees: (u128, u128, u128), funds: [u128; 5]) -> Result<
     accounts[I_ADV] = adv.to_string();
     let mut w = VaultWorld { app, cw20, asset, factory, vault: vault_addr, lp, router, adv, accounts, fees };
     if funds[4] > 0 { w.transfer_asset(FOWNER, &w.adv.to_string(), funds[4]).map_err(|e| format!("{:#}", e))?; }
+    // the borrower contract also holds coins of a foreign denom (attached to some of its FlashLoan calls)
+    for a in [FOWNER, USERS[0], USERS[1], USERS[2]] {
+        if w.app.wrap().query_balance(a, "ujunk").map(|c| !c.amount.is_zero()).unwrap_or(false) {
+            let _ = w.app.send_tokens(Addr::unchecked(a), w.adv.clone(), &[coin(1_000_000_000_000, "ujunk")]);
+            break;
+        }
+    }
     Ok(w)
 }
 
@@ -425,6 +437,15 @@ impl VaultWorld {
             new_vault_fees: p.fees.map(|(a, b, c)| vfee(a.u128(), b.u128(), c.u128())),
             new_fee_collector_addr: None,
         }
+    }
+    /// owner (through the factory) points the vault at another fee collector; not an `Op` of the model (the collector identity
+    /// is not part of the modelled state): used by the monitor-only stream of C05/C07
+    pub fn set_collector(&mut self, new_collector: &str) -> i64 {
+        let params = vmsg::UpdateConfigParams { flash_loan_enabled: None, deposit_enabled: None, withdraw_enabled: None, new_owner: None, new_vault_fees: None,
+            new_fee_collector_addr: Some(new_collector.to_string()) };
+        let (who, factory, vault) = (self.addr(I_FOWNER), self.factory.clone(), self.vault.to_string());
+        let r = std::panic::catch_unwind(std::panic::AssertUnwindSafe(|| self.app.execute_contract(who, factory, &fmsg::ExecuteMsg::UpdateVaultConfig { vault_addr: vault, params }, &[])));
+        match r { Ok(Ok(_)) => 0, Ok(Err(e)) => classify_code(&e), Err(_) => 1 }
     }
     /// vault-router FlashLoan with native coins attached to the message (monitor-only stream of C06: not an `Op` of the model)
     pub fn router_loan_with_funds(&mut self, u: usize, amount: u128, pre: u128, script: &[Act], attached: u128) -> i64 {
